@@ -211,6 +211,11 @@ func batch(engine, prop, tier string, pe PropEngine) int {
 	var wg sync.WaitGroup
 	harness := []string{}
 	hangs := []int{}
+	// A batch in which the code under test keeps hanging is cut short after a
+	// few watchdog reports: each costs a full watchdog period.
+	const maxHangs = 3
+	aborted := false
+	procs := make([]*exec.Cmd, nw)
 	for w := 0; w < nw; w++ {
 		wg.Add(1)
 		go func(w int) {
@@ -237,10 +242,26 @@ func batch(engine, prop, tier string, pe PropEngine) int {
 					mu.Unlock()
 					return
 				}
+				mu.Lock()
+				procs[w] = cmd
+				ab := aborted
+				mu.Unlock()
+				if ab {
+					cmd.Process.Kill()
+				}
 				sc := bufio.NewScanner(pipe)
 				sc.Buffer(make([]byte, 1<<20), 1<<30)
 				last := -1
 				for sc.Scan() {
+					mu.Lock()
+					if aborted {
+						for _, c := range procs {
+							if c != nil && c.Process != nil {
+								c.Process.Kill()
+							}
+						}
+					}
+					mu.Unlock()
 					r := &Result{}
 					if err := json.Unmarshal(sc.Bytes(), r); err != nil {
 						mu.Lock()
@@ -266,9 +287,22 @@ func batch(engine, prop, tier string, pe PropEngine) int {
 				if code == exitHang && last >= 0 {
 					mu.Lock()
 					hangs = append(hangs, last)
+					stop := len(hangs) >= maxHangs
+					if stop {
+						aborted = true
+					}
 					mu.Unlock()
+					if stop {
+						return
+					}
 					start = last + 1
 					continue
+				}
+				mu.Lock()
+				ab2 := aborted
+				mu.Unlock()
+				if ab2 {
+					return // killed because the batch was cut short
 				}
 				mu.Lock()
 				harness = append(harness, fmt.Sprintf("worker %d died (exit %d) after run %d", w, code, last))
@@ -278,6 +312,16 @@ func batch(engine, prop, tier string, pe PropEngine) int {
 		}(w)
 	}
 	wg.Wait()
+	if aborted {
+		fmt.Printf("note: %d runs exceeded the watchdog; the batch was cut short\n", len(hangs))
+		kept := results[:0]
+		for _, r := range results {
+			if r != nil {
+				kept = append(kept, r)
+			}
+		}
+		results = kept
+	}
 	for i, r := range results {
 		if r == nil {
 			harness = append(harness, fmt.Sprintf("run %d produced no result", i))
@@ -317,6 +361,18 @@ func batch(engine, prop, tier string, pe PropEngine) int {
 		fmt.Printf("note: run %d exceeded the %v watchdog\n", h, HangLimit)
 	}
 
+	if !pe.Meta().HangIsViolation {
+		if v, ok := groups["hang|"+hangSig(groups)]; ok || len(hangs) > 0 {
+			// this property says nothing about termination: a stuck run is
+			// trouble to look into, not a verdict
+			path := ""
+			if ok {
+				path, _ = WriteReplay(prop, tier, base, *v, 0, len(hangs))
+			}
+			fmt.Printf("HARNESS-ERROR: %d simulated runs did not come back within the %v watchdog; scenario kept at %s\n", len(hangs), HangLimit, path)
+			return ExitHarness
+		}
+	}
 	findings, err := LoadFindings()
 	if err != nil {
 		fatalf("known_findings.json: %v", err)
@@ -508,3 +564,13 @@ var lastTick int64
 // call it once per evaluation, so the watchdog bounds a single execution of
 // the code under test, not a whole sweep.
 func Tick() { atomic.StoreInt64(&lastTick, time.Now().UnixNano()) }
+
+// hangSig finds the signature under which a watchdog report was filed.
+func hangSig(groups map[string]*Violation) string {
+	for k, v := range groups {
+		if v.Class == "hang" {
+			return k[len("hang|"):]
+		}
+	}
+	return ""
+}
